@@ -233,6 +233,10 @@ class Controller:
                 component = data['component']()  # type: ComponentState
             except Exception:
                 continue
+            # VV: The components of stages that a restarted run skips have no engine (they are tagged as finished when
+            #     the controller is initialised): there is nothing to wait for
+            if component.engine is None:
+                continue
             observables.append(component.combinedStateUpdates)
 
         if not observables:
